@@ -130,6 +130,21 @@ func Words(name string, n uint64) []uint64 {
 
 func String(name string, n uint64) string { return string(Bytes(name, n)) }
 
+// Name is a string of length n whose first cmp bytes are arbitrary and whose remaining bytes are the
+// filler 'x' (so that comparing cmp bytes and the length decides equality of two such names).
+func Name(name string, n uint64, cmp uint64) string {
+	b := Bytes(name, cmp)
+	out := make([]byte, n)
+	for i := range out {
+		if uint64(i) < cmp {
+			out[i] = b[i]
+		} else {
+			out[i] = 'x'
+		}
+	}
+	return string(out)
+}
+
 type AssumeFailed struct{ Site string }
 
 func Assume(c bool) {
@@ -197,6 +212,7 @@ func Ite(c bool, a, b []byte) []byte {
 }
 func BytesEq(a, b []byte) bool              { return string(a) == string(b) }
 func OnReturn(fn string, hook interface{}) {}
+func OnCall(fn string, hook interface{})   {}
 func RunSpawned()                          { time.Sleep(50 * time.Millisecond) }
 func NumSpawned() uint64                   { return 0 }
 func Mark(v uint64)                        {}
